@@ -20,7 +20,9 @@ def chk(pid, cat, text, note, technique, design_ref, world):
 
 T_NOTE = ("Trusted base: the harness (plan generator, recorder, oracles), gcc 12 + ASan/UBSan, synthetic physics tables, "
           "the library's own track views used for observation. Physics outcomes come from a simulator-owned stub model applied "
-          "through the real InteractionApplier; real EM models are covered by C04's bench, not here.")
+          "through the real InteractionApplier and, in a third of the plans, additionally from the real KleinNishinaModel, "
+          "MollerBhabhaModel and EPlusAnnihilationProcess/EPlusGGModel (simulator-owned cross-section tables; the annihilation "
+          "cross section is the library's on-the-fly one); models that need imported data run only on C04's bench.")
 
 chk("C01", "exploration",
     "Seeded search over generated problems x configurations x workloads on the real Stepper; every step of every track is "
